@@ -11,6 +11,7 @@ import OH.Driver.Nz
 import OH.Driver.C10
 import OH.Driver.C11
 import OH.Driver.C18
+import OH.Driver.Py
 /-
 `ohdriver`: reads protocol lines on stdin, prints one verdict line per input line.
 Only core + OH.Model/OH.Driver imports (no Mathlib), so it links as a `lean_exe`.
@@ -30,6 +31,7 @@ def dispatch (op : String) (args impl : List String) : String :=
     else if op.startsWith "tz." then OH.Driver.Tz.handle op args impl
     else if op.startsWith "nz." then OH.Driver.Nz.handle op args impl
     else if op.startsWith "pur." then OH.Driver.C18.handle op args impl
+    else if op.startsWith "py." then OH.Driver.Py.handle op args impl
     else if op.startsWith "sun." then OH.Driver.C11.handle op args impl
     else none
   match r with
